@@ -320,9 +320,11 @@ fn c07_quiescent(f: &Facts, sc: &Sc, now: u64, after_drain: bool) {
 		}
 		return;
 	}
-	// a graceful wait in progress: signalled, not ended, deadline not reached
+	// a graceful wait in progress: signalled, not ended, deadline not reached — or reached
+	// less than one tick ago (the expiry itself may carry a small safety margin; what C07
+	// is about is that the ticket does resolve, with the completion of the control)
 	let in_progress = !after_drain
-		&& f.gsigs.iter().any(|(_, t0, c, _)| !f.gone_at.contains_key(c) && now < t0 + g);
+		&& f.gsigs.iter().any(|(_, t0, c, _)| !f.gone_at.contains_key(c) && now < t0 + g + 1);
 	let first_open_graceful = if in_progress {
 		f.ops.iter().find(|o| o.op.is_graceful() && !f.resolved.contains_key(&(o.idx, 0))).map(|o| o.log_pos)
 	} else {
